@@ -35,7 +35,7 @@ Definition ws (o : wop) (r : gout) (p : probe) : wobs := (o, r, p).
 Definition ce (inv resp : Z) (o : cop) (r : cres) : cevent := (inv, resp, o, r).
 (* compact notation for bursts: lo, lo+1, .., lo+n-1; the n low base-8 digits of d, least significant first *)
 Definition zrange (lo n : Z) : list Z := map (fun i => lo + Z.of_nat i) (seq 0 (Z.to_nat n)).
-Fixpoint digs_aux (n : nat) (d : Z) : list Z := match n with O => [] | S m => d mod 8 :: digs_aux m (d / 8) end.
+Fixpoint digs_aux (n : nat) (d : Z) : list Z := match n with O => [] | S m => Z.land d 7 :: digs_aux m (Z.shiftr d 3) end.
 Definition digs (d n : Z) : list Z := digs_aux (Z.to_nat n) d.
 Definition rP : gout := None.                                  (* the call panicked *)
 Definition rU : gout := Some RUnit.
